@@ -147,6 +147,12 @@ def obligations(tier):
                   bounds='POST and GET x 4 Accept-Encoding headers x 5 supported_encodings x 4 chunk sizes',
                   claim='the response written by do_POST/do_GET is valid framing, its coding was acceptable, and read_response_body '
                         'recovers the response bytes'))
+    obs.append(Ob('C17.response.keepalive', 'harness.C17', 'keepalive_negotiation', timeout=t, functions=SERVER + CHUNK + BODY,
+                  stubs=[S_STREAM, S_HDR, S_SOCK, S_XML, S_CODEC, S_REF],
+                  bounds='2 requests on ONE handler instance (keep-alive connection): POST/GET x 6 Accept-Encoding headers each '
+                         '(none, gzip, gzip;q=0, identity, weighted list, unknown) x 5 supported_encodings x 4 chunk sizes',
+                  claim='the coding of each response is acceptable to ITS request (nothing is carried over from the previous '
+                        'request of the connection) and the reader recovers the bytes'))
     return obs
 
 
